@@ -110,6 +110,9 @@ def lean_gate(ctx, module):
     if not theorems:
         raise LeanGateError(f"{path}: no '#print axioms' output found")
     bad = {k: v for k, v in theorems.items() if not set(v) <= ALLOWED_AXIOMS}
+    if bad:
+        raise LeanGateError("theorems depending on axioms outside {propext, Classical.choice, Quot.sound}:\n" +
+                            "\n".join(f"{k}: {v}" for k, v in sorted(bad.items())[:20]))
     hits = scan_sources()
     if hits:
         raise LeanGateError("forbidden tokens in Lean sources:\n" + "\n".join(hits[:20]))
@@ -194,6 +197,14 @@ def write_evidence(ctx, gate, coverage, assumptions=None):
         cov["discharged"] = gate["discharged"]
         cov["checker_cmd"] = gate["checker_cmd"]
         cov["theorems"] = gate["theorems"]
+    try:
+        import oracle
+        if oracle.TIMEOUTS:
+            cov["model_timeouts"] = len(oracle.TIMEOUTS)
+            cov["model_timeouts_note"] = ("cases whose evaluation by the interpreted Lean model hit the time limit; "
+                                          "they are not compared and are not counted in evaluations")
+    except ImportError:
+        pass
     cov["trusted_base"] = TRUSTED_BASE + list(cov.get("trusted_base_extra", []))
     cov.pop("trusted_base_extra", None)
     ev = {
